@@ -11,9 +11,9 @@ import (
 
 type verifCtl struct{}
 
-func (c *verifCtl) Propagate(e *pipeline.Event)                          {}
+func (c *verifCtl) Propagate(e *pipeline.Event)                            {}
 func (c *verifCtl) Spawn(parent *pipeline.Event, nodes []*insaneJSON.Node) {}
-func (c *verifCtl) IncMaxEventSizeExceeded(lvs ...string)                {}
+func (c *verifCtl) IncMaxEventSizeExceeded(lvs ...string)                  {}
 
 func verifAction(maxEventSize int, cutOff bool) *MultilineAction {
 	p := &MultilineAction{}
